@@ -333,7 +333,7 @@ def r3_pipeline(ctx):
         # the pushed value is the (heap-injected) message parameter
         pushed = op_place(pb[0][1]["args"][1])
         back = fl.backward({pushed["l"]}, through_calls=("Try::branch", "Executor::inject_heap_data"))
-        msg_param = [l["i"] for l in nmb.locals if l.get("name") == "message"]
+        msg_param = [nmb.param_by_type(lambda ty: ty == "quiver_core::value::Value", what="message parameter")]
         ctx.check(bool(msg_param) and msg_param[0] in back, R, nmb.key + "|appended-is-message", "the appended value is the delivered message (via inject_heap_data)",
                   "the appended value does not derive from the `message` parameter", nmb.loc(pb[0][0]))
 
@@ -366,9 +366,17 @@ def r4_order(ctx):
     ctx.floor(R, "mailbox operations inspected", n, 5)
     es = F.body("quiver_environment::environment::Environment::step")
     fl = Flow(es)
-    ev_locals = [l["i"] for l in es.locals if l.get("name") == "events"]
+    # the collected-event list: the Vec that receives the try_recv results
+    ev_locals = []
+    for bi, t in es.calls():
+        if (t.get("callee") or "").endswith("Vec::push") and len(t["args"]) > 1 and op_place(t["args"][1]):
+            srcs = Flow(es, through_named=True).sources(op_place(t["args"][1])["l"], through_calls=("Try::branch", "Result::map_err", "Option::unwrap"))
+            if any(x[0] == "call" and (x[2].get("callee") or "").endswith("try_recv") for x in srcs):
+                c0 = fl.canon_op(t["args"][0])
+                if c0:
+                    ev_locals.append(c0[0])
     if not ev_locals:
-        raise CheckError("R-C04-4: local `events` not found in Environment::step")
+        raise CheckError("R-C04-4: the list collecting try_recv results was not found in Environment::step")
     ev = ev_locals[0]
     ops = []
     for bi, t in es.calls():
@@ -438,9 +446,15 @@ def r6_await_registration(ctx):
     F = ctx.facts
     q = F.body("quiver_environment::worker::Worker::query_and_await")
     fl = Flow(q)
-    res_locals = [l["i"] for l in q.locals if l.get("name") == "results"]
+    # the answer map: the operand of the `results` field of the Event::ProcessResults this function sends
+    res_locals = []
+    for _bi, _si, _s in agg_sites(q, "messages::Event", "ProcessResults"):
+        for fname, o in zip(_s["rv"]["fields"], _s["rv"]["ops"]):
+            if fname == "results" and op_place(o):
+                res_locals.append(fl.canon_place(op_place(o))[0])
+                res_locals += list(Flow(q, through_named=True).backward({op_place(o)["l"]}))
     if not res_locals:
-        raise CheckError("R-C04-6: local `results` not found in query_and_await")
+        raise CheckError("R-C04-6: the answer map sent in Event::ProcessResults was not found in query_and_await")
     none_inserts = []
     for bi, t in q.calls():
         if not (t.get("callee") or "").endswith("HashMap::insert") or len(t["args"]) < 3:
@@ -459,7 +473,7 @@ def r6_await_registration(ctx):
     ctx.floor(R, "results.insert(target, None) sites", len(none_inserts), 1)
     awaited_ins = [bi for bi, t, f in field_calls(ctx, q, fl, ("HashSet::insert",), "worker::Worker", ("awaited",))]
     entries = [bi for bi, t, f in field_calls(ctx, q, fl, ("HashMap::entry",), "worker::Worker", ("awaiters_for_target",))]
-    awaiter_param = [l["i"] for l in q.locals if l.get("name") == "awaiter"]
+    awaiter_param = [q.param_by_type(lambda ty: ty == "usize", what="awaiter parameter")]
     pushes = []
     for bi, t in q.calls():
         if (t.get("callee") or "").endswith("Vec::push") and len(t["args"]) > 1:
